@@ -66,9 +66,12 @@ def invalid_value(rng, kind, attr):
     """A value of the wrong type, or outside the choices."""
     t, choices = ATTRS[kind][attr]
 
-    if choices and rng.chance(0.5):
-        return rng.choice(['mac', 'DOS', 'yaml', '2.0', 'text/html', 'x',
-                           'Unix', 'BINARY'])
+    if choices and rng.chance(0.6):
+        # incl. values that are valid choices of *other* options
+        pool = ['mac', 'DOS', 'yaml', '2.0', 'text/html', 'x', 'Unix',
+                'BINARY', '', 'unix', 'dos', 'json', 'text', 'binary',
+                'text/plain', 'text/markdown', '1.0']
+        return rng.choice([v for v in pool if v not in choices])
 
     wrong = {
         'str': [5, {'$bytes': '6162'}, None, ['a'], {'a': 1}, 1.5],
